@@ -31,9 +31,9 @@ impl VariableReference {
 
     pub fn get_container_for_count(self: &Rc<Self>) -> Result<Rc<Container>, String> {
         if let Some(path) = &self.path_for_count {
-            Ok(Object::resolve_path(self.clone(), path)
+            Object::resolve_path(self.clone(), path)
                 .container()
-                .unwrap())
+                .ok_or_else(|| format!("Read count target '{}' is not a container", path))
         } else {
             Err("Path for count is not set.".to_owned())
         }
